@@ -18,7 +18,7 @@ EVENTS = ["PRINT_STARTED", "PRINT_DONE", "PRINT_FAILED", "PRINT_CANCELLING", "PR
 
 def guard(w, ev):
     # raw moves only when the tracker knows the position, or when no print is active
-    if ev[0] == "GCODE" and ev[1].startswith("G1"):
+    if ev[0] in ("GCODE", "GCODET") and ev[1].startswith("G1"):
         return (not w.m_active) or w.m_homed
     return True
 
@@ -27,7 +27,7 @@ def scenarios(tier):
     menu = [("EV", n) for n in EVENTS] + [
         ("SET", "clearRegionsAfterPrintFinishes", True), ("SET", "clearRegionsAfterPrintFinishes", False),
         ("SETBAD", "clearRegionsAfterPrintFinishes", True),
-        ("GCODE", "G28"), ("GCODE", "G1 X50 Y40 Z1"), ("GCODE", "G1 X10 Y10 E1"),
+        ("GCODE", "G28"), ("GCODE", "G1 X50 Y40 Z1"), ("GCODET", "G1 X50 Y40 Z1"), ("GCODE", "G1 X10 Y10 E1"),
         ("AT", "ExcludeRegion", "disable"),
         ("SCRIPT", "gcode", "afterPrintDone"), ("SCRIPT", "gcode", "beforePrintStarted"),
         ("ADD", "R", "a")]
